@@ -50,12 +50,13 @@ type histObs struct {
 }
 
 type runner struct {
-	c        *core.Ctx
-	keys     []*dsig.PrivateKey
-	stranger *dsig.PublicKey // a key that never signs
-	dig      *envh.Digests
-	quiet    bool // re-running candidates of the shrinker: no counters, no failures
-	nfail    int
+	c         *core.Ctx
+	keys      []*dsig.PrivateKey
+	stranger  *dsig.PublicKey // a key that never signs
+	lookalike *dsig.PublicKey // other key material under key 1's key id
+	dig       *envh.Digests
+	quiet     bool // re-running candidates of the shrinker: no counters, no failures
+	nfail     int
 }
 
 func histUUID(id int) string  { return fmt.Sprintf("0190f5c1-0001-7000-8000-%012x", id) }
@@ -332,6 +333,15 @@ func (r *runner) run(tc tcase, base int, next func(st *envh.St, i int) (envh.Act
 					so.nilKey = fmt.Sprintf("Envelope.Verify(nil, nil) = %s but with a key that signed nothing = %s", vn, vs)
 				} else if vk != so.v[0] {
 					so.nilKey = fmt.Sprintf("Envelope.Verify(nil, key 1) = %s but Verify(key 1) = %s", vk, so.v[0])
+				} else if r.lookalike != nil {
+					// the answer depends on the key material and on the envelope, not on what this very
+					// value was asked before: a key pair that merely carries key 1's id is a stranger —
+					// also right after key 1 itself has been tried on the same value
+					_ = st.Env.Verify(r.keys[0].Public())
+					vl := envh.VerifyDetail(st.Env.Verify(r.lookalike), len(st.Env.Signatures))
+					if vl != vs {
+						so.nilKey = fmt.Sprintf("Envelope.Verify(other key material under key 1's id), asked after Verify(key 1) on the same value, = %s but a key that signed nothing gives %s", vl, vs)
+					}
 				}
 			}
 		}); p != "" {
@@ -439,6 +449,18 @@ func keyName(k int) string {
 func Run(c *core.Ctx) int {
 	r := &runner{c: c, keys: []*dsig.PrivateKey{dsig.NewES256Key(), dsig.NewES256Key()}, dig: envh.NewDigests()}
 	r.stranger = dsig.NewES256Key().Public()
+	// a different key pair that carries the key id of key 1 (the id is a free-text label)
+	if jb, err := json.Marshal(dsig.NewES256Key().Public()); err == nil {
+		var m map[string]any
+		if json.Unmarshal(jb, &m) == nil {
+			m["kid"] = r.keys[0].ID()
+			jb, _ = json.Marshal(m)
+			lk := new(dsig.PublicKey)
+			if json.Unmarshal(jb, lk) == nil && lk.ID() == r.keys[0].ID() && lk.Thumbprint() != r.keys[0].Public().Thumbprint() {
+				r.lookalike = lk
+			}
+		}
+	}
 	var hs []*histObs
 	var rc tcase
 	if c.ReplayCase(&rc) {
